@@ -17,6 +17,7 @@ type Exec struct {
 	fmtParent    map[*FmtStr]*FmtStr
 	fmtOf        map[string]*FmtStr
 	posOf        map[string]FmtPos
+	sharedOf     map[string]string // slice term -> condition under which its backing array extends into elements of the slice it was cut from
 	coverDone    map[*AtSpec]bool
 	cntDeclared  map[string]bool
 	eng          *Engine
@@ -132,6 +133,9 @@ func (x *Exec) bind(v Val, base string) Val {
 	}
 	if p, ok := x.posOf[v.T]; ok {
 		x.setPos(n, p)
+	}
+	if c, ok := x.sharedOf[v.T]; ok {
+		x.sharedOf[n] = c
 	}
 	return Val{T: n, S: v.S, Ty: v.Ty}
 }
